@@ -41,14 +41,26 @@ Definition run_runner (r : runner) (o : outcome) : runner :=
   | KMut => set_stat r Failed
   end.
 
-Lemma do_run_out s rid r o :
-  st_out (do_run s rid r o) = match run_env rid r o with Some e => e :: st_out s | None => st_out s end.
+Lemma do_run_out_gen s rid r o :
+  st_out (do_run s rid r o) =
+  match run_env rid r o with Some e => if st_wfail s then st_out s else e :: st_out s | None => st_out s end.
 Proof.
   unfold do_run, run_env. destruct (r_kind r); destruct o; cbn;
     repeat match goal with
            | |- context [if r_initial r then _ else _] => destruct (r_initial r); cbn
            | |- context [match Diff ?a ?b with Some _ => _ | None => _ end] => destruct (Diff a b); cbn
            end; reflexivity.
+Qed.
+
+(** as long as writes succeed *)
+Lemma do_run_out s rid r o : st_wfail s = false ->
+  st_out (do_run s rid r o) = match run_env rid r o with Some e => e :: st_out s | None => st_out s end.
+Proof. intros W. rewrite do_run_out_gen, W. reflexivity. Qed.
+
+Lemma do_run_out_incl s rid r o e : In e (st_out (do_run s rid r o)) ->
+  In e (match run_env rid r o with Some e0 => e0 :: st_out s | None => st_out s end).
+Proof.
+  rewrite do_run_out_gen. destruct (run_env rid r o); [|auto]. destruct (st_wfail s); [right; assumption | auto].
 Qed.
 
 Lemma do_run_runner s rid r o : st_runners s rid = Some r -> st_runners (do_run s rid r o) rid = Some (run_runner r o).
@@ -160,7 +172,7 @@ Proof.
   - destruct (ready s); [|discriminate]. inversion Hs; subst. apply c0_same; reflexivity.
   - destruct (ready s); [|discriminate]. inversion Hs; subst. destruct ok; apply c0_same; reflexivity.
   - destruct (ready s); [|discriminate]. inversion Hs; subst. apply c0_same; reflexivity.
-  - destruct (ready s); [|discriminate]. inversion Hs; subst. apply change0_close_all.
+  - destruct (ready0 s); [|discriminate]. inversion Hs; subst. apply change0_close_all.
   - destruct (st_pend s); [|discriminate]. destruct (st_closed s); [discriminate|]. inversion Hs; subst. apply c0_same; reflexivity.
   - inversion Hs; subst. apply c0_same; reflexivity.
   - inversion Hs; subst. apply c0_same; reflexivity.
@@ -171,7 +183,9 @@ Proof.
     destruct (c_fix_aba cfg); [|apply change0_close_id].
     destruct (find_id id (st_subs s1)); [|apply c0_same; reflexivity].
     destruct (Nat.eqb n rid0); [apply change0_close_entry | apply c0_same; reflexivity].
-  - destruct (ready s); [|discriminate]. inversion Hs; subst. apply change0_close_all.
+  - destruct (ready0 s); [|discriminate]. inversion Hs; subst. apply change0_close_all.
+  - inversion Hs; subst. apply c0_same; reflexivity.
+  - inversion Hs; subst. apply c0_same; reflexivity.
 Qed.
 
 (** What a step that is not a run completion writes: nothing, or one envelope of the reader goroutine
@@ -179,10 +193,11 @@ Qed.
 Lemma step_out0 cfg s l s' : inv_pend2 s -> is_run l = false -> step cfg s l = Some s' ->
   st_out s' = st_out s \/ exists e, st_out s' = e :: st_out s /\ e_src e = None /\ e_type e <> EUpdate.
 Proof.
-  intros Hp Hl Hs. destruct l; try discriminate Hl; crush_step Hs; auto.
-  - right. eexists; repeat split; cbn; congruence.
-  - right. match goal with [ H : st_pend s = Some ?e |- _ ] => destruct (Hp _ H) as [A B]; exists e end.
-    repeat split; auto. congruence.
+  intros Hp Hl Hs. destruct l; try discriminate Hl; crush_step Hs; auto;
+    try (destruct (st_wfail s); [left; reflexivity|]);
+    try (right; eexists; repeat split; cbn; congruence).
+  right. match goal with [ H : st_pend s = Some ?e |- _ ] => destruct (Hp _ H) as [A B]; exists e end.
+  repeat split; auto. congruence.
 Qed.
 
 (** * Chronological views after one more envelope *)
@@ -221,7 +236,7 @@ Proof.
   destruct (is_run l) eqn:R.
   - destruct l; try discriminate. cbn [step] in Hs.
     destruct (st_runners s rid0) as [r0|] eqn:E; [|discriminate]. destruct (is_live r0); [|discriminate].
-    inversion Hs; subst. rewrite do_run_out in Hin. rewrite do_run_next.
+    inversion Hs; subst. apply do_run_out_incl in Hin. rewrite do_run_next.
     destruct (run_env rid0 r0 o) as [e0|] eqn:Ee.
     + destruct Hin as [<-|Hin]; [|eauto]. apply run_env_src in Ee as [A _]. rewrite A in Hsrc. inversion Hsrc; subst.
       eapply Hf; eauto.
@@ -285,15 +300,16 @@ Section Convergence.
   Proof. reflexivity. Qed.
 
   Lemma step_conv cfg s l s' :
-    good_label l = true -> Lite s -> inv_pend2 s -> inv_src s -> inv_conv s -> step cfg s l = Some s' -> inv_conv s'.
+    good_label l = true -> st_wfail s = false -> Lite s -> inv_pend2 s -> inv_src s -> inv_conv s ->
+    step cfg s l = Some s' -> inv_conv s'.
   Proof.
-    intros G [Hf Hp] Hp2 Hsrc H Hs rid r' Hr'.
+    intros G Hw [Hf Hp] Hp2 Hsrc H Hs rid r' Hr'.
     destruct (is_run l) eqn:R.
     - (* a computation of rid0 completes *)
-      destruct l as [| | | | | | | | rid0 o | | | |]; try discriminate. cbn [step] in Hs.
+      destruct l as [| | | | | | | | rid0 o | | | | | |]; try discriminate. cbn [step] in Hs.
       destruct (st_runners s rid0) as [r0|] eqn:E; [|discriminate]. destruct (is_live r0) eqn:L; [|discriminate].
       inversion Hs; subst s'; clear Hs.
-      pose proof (do_run_out s rid0 r0 o) as Ho.
+      pose proof (do_run_out s rid0 r0 o Hw) as Ho.
       destruct (Nat.eq_dec rid rid0) as [->|Hne].
       + rewrite (do_run_runner s rid0 r0 o E) in Hr'. inversion Hr'; subst r'; clear Hr'.
         specialize (H _ _ E). intros K.
@@ -375,36 +391,53 @@ Section Convergence.
     split; [apply Lite_init|]. split; [intros e H; discriminate|]. split; [intros e rid []|]. intros rid r H; discriminate.
   Qed.
 
-  Lemma run_Conv cfg h : forall s s', forallb good_label h = true -> Conv s -> run cfg s h = Some s' -> Conv s'.
+  (** writes never start succeeding again *)
+  Lemma step_wfail cfg s l s' : step cfg s l = Some s' -> st_wfail s' = false -> st_wfail s = false.
   Proof.
-    induction h as [|l t IH]; intros s s' G H Hr; cbn [run] in Hr.
+    intros Hs. destruct l; crush_step Hs; auto; try discriminate.
+  Qed.
+
+  Lemma run_wfail cfg h : forall s s', run cfg s h = Some s' -> st_wfail s' = false -> st_wfail s = false.
+  Proof.
+    induction h as [|l t IH]; intros s s' Hr W; cbn [run] in Hr.
+    - inversion Hr; subst; exact W.
+    - destruct (step cfg s l) as [s1|] eqn:E; [|discriminate]. eapply step_wfail; eauto.
+  Qed.
+
+  Lemma run_Conv cfg h : forall s s',
+    forallb good_label h = true -> Conv s -> run cfg s h = Some s' -> st_wfail s' = false -> Conv s'.
+  Proof.
+    induction h as [|l t IH]; intros s s' G H Hr W; cbn [run] in Hr.
     - inversion Hr; subst; exact H.
     - cbn [forallb] in G. apply andb_prop in G as [G1 G2].
       destruct (step cfg s l) as [s1|] eqn:E; [|discriminate].
-      destruct H as (A & B & C & D). eapply IH; [exact G2 | | exact Hr].
+      assert (W1 : st_wfail s1 = false) by (eapply run_wfail; eauto).
+      assert (W0 : st_wfail s = false) by (eapply step_wfail; eauto).
+      destruct H as (A & B & C & D). eapply IH; [exact G2 | | exact Hr | exact W].
       split; [eapply step_Lite; eauto|]. split; [eapply step_pend2; eauto|].
       split; [eapply step_inv_src; eauto | eapply step_conv; eauto].
   Qed.
 
   (** Convergence: in every state reached by a history whose successful computations return well-formed
-      objects, the merge.ts client that folded all update messages of subscription [rid] holds (up to the
-      order of object keys) the key-stripped result of that subscription's last successful computation. *)
+      objects and in which no socket write has failed (the client is still there), the merge.ts client that
+      folded all update messages of subscription [rid] holds (up to the order of object keys) the
+      key-stripped result of that subscription's last successful computation. *)
   Theorem convergence cfg h s rid r :
-    forallb good_label h = true -> run cfg init h = Some s ->
+    forallb good_label h = true -> run cfg init h = Some s -> st_wfail s = false ->
     st_runners s rid = Some r -> r_kind r = KSub -> r_initial r = false ->
     jeq (client_state rid s) (strip (r_prev r)).
   Proof.
-    intros G Hr Hs K I. destruct (run_Conv cfg h init s G Conv_init Hr) as (_ & _ & _ & C).
+    intros G Hr W Hs K I. destruct (run_Conv cfg h init s G Conv_init Hr W) as (_ & _ & _ & C).
     destruct (C _ _ Hs K) as (_ & B & _). apply B. exact I.
   Qed.
 
   (** First message: the first envelope a subscription's rerunner writes is a full update (or the error
       that ends it). *)
   Theorem first_message_full cfg h s rid r :
-    forallb good_label h = true -> run cfg init h = Some s ->
+    forallb good_label h = true -> run cfg init h = Some s -> st_wfail s = false ->
     st_runners s rid = Some r -> r_kind r = KSub -> first_ok (writes_of rid s).
   Proof.
-    intros G Hr Hs K. destruct (run_Conv cfg h init s G Conv_init Hr) as (_ & _ & _ & C).
+    intros G Hr W Hs K. destruct (run_Conv cfg h init s G Conv_init Hr W) as (_ & _ & _ & C).
     destruct (C _ _ Hs K) as (_ & _ & F). exact F.
   Qed.
 
@@ -422,9 +455,9 @@ Lemma step_inv_own cfg s l s' : Lite s -> inv_pend2 s -> inv_own s -> step cfg s
 Proof.
   intros [Hf Hp] Hp2 H Hs e rid Hin Hsrc.
   destruct (is_run l) eqn:R.
-  - destruct l as [| | | | | | | | rid0 o | | | |]; try discriminate. cbn [step] in Hs.
+  - destruct l as [| | | | | | | | rid0 o | | | | | |]; try discriminate. cbn [step] in Hs.
     destruct (st_runners s rid0) as [r0|] eqn:E; [|discriminate]. destruct (is_live r0); [|discriminate].
-    inversion Hs; subst s'; clear Hs. rewrite do_run_out in Hin.
+    inversion Hs; subst s'; clear Hs. apply do_run_out_incl in Hin.
     assert (Old : In e (st_out s) -> exists r, st_runners (do_run s rid0 r0 o) rid = Some r /\ e_id e = r_sub r).
     { intros Hin'. destruct (H _ _ Hin' Hsrc) as (r & A & B). destruct (Nat.eq_dec rid rid0) as [->|Hne].
       - rewrite E in A. inversion A; subst r. eexists. split; [apply do_run_runner; exact E|]. rewrite run_runner_sub. exact B.
@@ -500,7 +533,7 @@ Lemma step_quiet cfg s l s' id : Lite s -> accepts_for id l = false -> quiet id 
 Proof.
   intros [Hf Hp] Ha Q Hs rid r' Hr' Hsub.
   destruct (is_run l) eqn:R.
-  - destruct l as [| | | | | | | | rid0 o | | | |]; try discriminate. cbn [step] in Hs.
+  - destruct l as [| | | | | | | | rid0 o | | | | | |]; try discriminate. cbn [step] in Hs.
     destruct (st_runners s rid0) as [r0|] eqn:E; [|discriminate]. destruct (is_live r0) eqn:L; [|discriminate].
     inversion Hs; subst s'; clear Hs. destruct (Nat.eq_dec rid rid0) as [->|Hne].
     + rewrite (do_run_runner _ _ _ _ E) in Hr'. inversion Hr'; subst r'. rewrite run_runner_sub in Hsub.
@@ -517,9 +550,9 @@ Lemma step_quiet_out cfg s l s' id e : inv_pend2 s -> quiet id s -> step cfg s l
 Proof.
   intros Hp2 Q Hs Hin Hid Hty.
   destruct (is_run l) eqn:R.
-  - destruct l as [| | | | | | | | rid0 o | | | |]; try discriminate. cbn [step] in Hs.
+  - destruct l as [| | | | | | | | rid0 o | | | | | |]; try discriminate. cbn [step] in Hs.
     destruct (st_runners s rid0) as [r0|] eqn:E; [|discriminate]. destruct (is_live r0) eqn:L; [|discriminate].
-    inversion Hs; subst s'; clear Hs. rewrite do_run_out in Hin.
+    inversion Hs; subst s'; clear Hs. apply do_run_out_incl in Hin.
     destruct (run_env rid0 r0 o) as [e0|] eqn:Ee; [|exact Hin].
     destruct Hin as [<-|Hin]; [|exact Hin]. exfalso. apply run_env_src in Ee as [_ B].
     rewrite Hid in B. symmetry in B. specialize (Q _ _ E B). unfold is_live in L. rewrite Q in L. discriminate.
